@@ -12,16 +12,42 @@ CONSTANTS MaxOps,
 VARIABLE hist
 gvars == <<dvars, ndg, hist>>
 
+\* configuration scripts
+S2(rt, mr) == DgScript("new", <<Call("set_read_timeout", rt), Call("set_max_retries", mr)>>)
+S1(f, v)   == DgScript("new", <<Call("set_read_timeout", 10000), Call("set_max_retries", 0), Call(f, v)>>)
+\* the state-graph and path generators: a budget with and without retries
+GConfs  == {S2(20000, 1), S2(10000, 0)}
+GConfsT == {S2(20000, 2), S2(10000, 0), S2(10000, 1)}
+\* the loss generator (nothing ever arrives): every setting at, just inside
+\* and just outside the ends of its range, set once, twice, in either order,
+\* not at all, by every route
+LossConfs ==
+       {DgScript(r, <<>>) : r \in {"new", "default", "conn_new"}}
+  \cup {S2(10000, mr) : mr \in {0, 1, 2, 3, 99, 100, 101, 255}}
+  \cup {S2(rt, mr) : rt \in {0, 1, 9999, 10001, 20000, 59999, 60000, 60001, 3600000}, mr \in {0, 1}}
+  \cup {DgScript("default", <<Call("set_max_retries", mr), Call("set_read_timeout", 10000)>>) : mr \in {0, 1, 101}}
+  \cup {DgScript("new", <<Call("set_max_retries", a), Call("set_read_timeout", 30000),
+                          Call("set_max_retries", b), Call("set_read_timeout", 10000)>>) :
+          a \in {0, 3}, b \in {0, 2}}
+  \cup {DgScript("new", <<Call("set_max_retries", mr)>>) : mr \in {0, 1}}
+  \cup {DgScript("new", <<Call("set_read_timeout", rt)>>) : rt \in {10000, 70000}}
+  \cup {S1("set_udp_payload_size", v) : v \in {-1, 0, 512, 1232, 4096, 65535}}
+  \cup {S1("set_recv_size", v) : v \in {512, 2000, 65535}}
+  \cup {S1("set_max_parallel", v) : v \in {0, 1, 2, 1000, 1001}}
+
+MaxMr == LET ms == {DgRun(sc).mr : sc \in Confs} IN CHOOSE m \in ms : \A x \in ms : x <= m
 GFaults == {[kind |-> "none", at |-> 0]}
-           \cup {[kind |-> k, at |-> a] : k \in {"connect", "send", "short"}, a \in 1..(1 + MaxRetries)}
+           \cup {[kind |-> k, at |-> a] : k \in {"connect", "send", "short"}, a \in 1..(1 + MaxMr)}
+NoFaults == {[kind |-> "none", at |-> 0]}
 
 OutJson(o) == IF o.ok THEN [ok |-> o.f] ELSE [err |-> TRUE]
 RECURSIVE MapOut(_)
 MapOut(sq) == IF sq = <<>> THEN <<>> ELSE <<OutJson(Head(sq))>> \o MapOut(Tail(sq))
 \* t: ticks between submission and completion (-1 while pending).  The
-\* specification completes a request no later than (1 + MaxRetries) * RD.
+\* specification completes a request no later than (1 + max_retries) * read_timeout.
+\* eff: what the getters of the configuration object say
 Proj(s) == [sent |-> s.sent, done |-> MapOut(s.done), waiting |-> s.ph = "recv",
-            t |-> IF s.ph = "done" THEN s.waited ELSE -1]
+            t |-> IF s.ph = "done" THEN s.waited ELSE -1, eff |-> s.conf.eff]
 
 \* one datagram per class: the answer, an answer to another question, an
 \* answer with another ID / the previous attempt's ID, a header-only error,
@@ -59,7 +85,7 @@ GenNext == /\ Len(hist) < MaxOps
 GenSpec == GenInit /\ [][GenNext]_gvars
 
 CaseOf(h) == ToJson([in |-> [kind |-> "dgram",
-                             cfg |-> [rd |-> RD, retries |-> MaxRetries, fault |-> fault],
+                             cfg |-> [conf |-> conf.sc, fault |-> fault],
                              ops |-> [i \in 1..Len(h) |-> OpJson(h[i].op)]],
                      exp |-> [i \in 1..Len(h) |-> h[i].proj]])
 EmitTransition == PrintT("CASE " \o CaseOf(hist'))
